@@ -255,7 +255,7 @@ def run_harness(binary, args=(), stdin_text=None, timeout=600, env=None):
         return -999, so, se + "\n[harness timeout after %ss]" % timeout
 
 
-def replay_cases(binary, cases, nproc=None, timeout=900, env=None, args=()):
+def replay_cases(binary, cases, nproc=None, timeout=900, env=None, args=(), max_crashes=40):
     """Feed NDJSON cases (list of dicts each with 'id') to a replay harness on stdin, sharded over
     processes.  The harness prints one NDJSON result per case ({"id":..,"ok":bool,...}).  A shard
     that dies (sanitizer report, crash) is bisected by re-running its cases one by one so the failing
@@ -267,7 +267,12 @@ def replay_cases(binary, cases, nproc=None, timeout=900, env=None, args=()):
     shards = [cases[i::nproc] for i in range(nproc)]
     shards = [s for s in shards if s]
 
+    crash_budget = [max_crashes]
+
     def run_shard(shard, depth=0):
+        if crash_budget[0] <= 0:
+            # the check already fails; do not spend minutes re-running thousands of crashing cases one by one
+            return [{"id": c["id"], "ok": True, "skipped": True} for c in shard]
         text = "".join(json.dumps(c, separators=(",", ":")) + "\n" for c in shard)
         rc, so, se = run_harness(binary, args, stdin_text=text, timeout=timeout, env=env)
         res = []
@@ -291,6 +296,7 @@ def replay_cases(binary, cases, nproc=None, timeout=900, env=None, args=()):
                 marks = [l for l in se2.splitlines() if l.startswith("STEP ")]
                 step = int(marks[-1].split()[1]) if marks else -1
                 head = "\n".join([l for l in se.splitlines() if "ERROR" in l or l.lstrip().startswith("#")][:8])
+                crash_budget[0] -= 1
                 return [{"id": shard[0]["id"], "ok": False, "crash": kind, "rc": rc, "step": step,
                          "stderr": (head + "\n...\n" + se[-1500:])[:4000]}]
             # the first unseen case is the prime suspect; run the unseen ones individually
